@@ -102,6 +102,9 @@ STATEMENTS = [
     # triple-quoted strings that hold quote characters of their own kind, also doubled and directly in front of the closing quotes
     (["t = '''def f(sep=''): pass'''"], None), (["u = '''first", "  sep='' end'''"], None), (['v = """say ""hi"" now"""'], None),
     (["w = '''it's", "'' and ''", "done'''"], None), (["print('''a''b''')"], ["a''b"]),
+    # ... with two-letter prefixes (rb, fr, Rb, bR, fR) and a lone quote of their own kind inside
+    (["d = rb'''don't'''"], None), (['e = fr"""say "hi" {1}"""'], None), (["g = Rb'''it's", "still 'open'", "done'''"], None),
+    (['h = bR"""a "q"', '', 'b"""'], None), (["print(fR'''x'y{2}''')"], ["x'y2"]),
 ]
 
 
